@@ -18,6 +18,7 @@ pub mod c21;
 pub mod c33;
 pub mod dbg;
 pub mod c22;
+pub mod c23;
 pub mod c24;
 pub mod c25;
 pub mod c27;
@@ -48,6 +49,7 @@ pub fn dispatch(id: &str, args: &Args) -> i32 {
         "C18" => drive_main(&c18::C18, args),
         "C21" => drive_main(&c21::C21, args),
         "C22" => drive_main(&c22::C22, args),
+        "C23" => drive_main(&c23::C23, args),
         "C24" => drive_main(&c24::C24, args),
         "C25rs" => drive_main(&c25::C25rs, args),
         "C27" => drive_main(&c27::C27, args),
